@@ -275,4 +275,36 @@ theorem op_plain (a : Api) (hi : Inv a.s) (h : Nat) (hd : Handle) (g : GOp) (hh 
   simp [hh, hkey]
   exact fun e => hk e.symm
 
+/-- a failed plain `try_lock` call leaves both counting calls' answers' sizes, the set of keys, every value and the whole
+specification state unchanged -/
+theorem lock_try_failed_counts (a : Api) (hi : Inv a.s) (h k h0 : Nat) (hf : a.s.hs h = none)
+    (hfail : (a.exec (.lock .try h k .none h0)).2.res.isGuard = false) :
+    let a' := (a.exec (.lock .try h k .none h0)).1
+    a'.s.order.length = a.s.order.length ∧ (∀ x, x ∈ a'.s.order ↔ x ∈ a.s.order) ∧ a'.s.ent = a.s.ent ∧ a'.s.hs = a.s.hs := by
+  intro a'
+  have he := (lock_try_failed_erased a hi h k h0 hf hfail).1
+  have hfree : (absSpec a.s).free k = false := by
+    have := lock_try_plain a hi h k h0 hf
+    cases hx : (absSpec a.s).free k
+    · rfl
+    · rw [this.2 hx] at hfail; cases hfail
+  have hmem : k ∈ a.s.order := by
+    rw [hi.keys]
+    intro hm
+    simp [Spec.free, absSpec, heldOf, waitingOf, hm] at hfree
+  show (a.exec (.lock .try h k .none h0)).1.s.order.length = _ ∧ (∀ x, x ∈ (a.exec (.lock .try h k .none h0)).1.s.order ↔ _) ∧
+    (a.exec (.lock .try h k .none h0)).1.s.ent = _ ∧ (a.exec (.lock .try h k .none h0)).1.s.hs = _
+  rw [he]
+  simp only [touch_ent, touch_hs, and_true]
+  unfold State.touch
+  split
+  · simp only [promote, List.length_append, List.length_erase_of_mem hmem, List.length_singleton, List.mem_append,
+      List.mem_singleton]
+    refine ⟨by have := List.length_pos_of_mem hmem; omega, ?_⟩
+    intro x
+    by_cases hx : x = k
+    · subst hx; simp [hmem]
+    · simp [hx, List.mem_erase_of_ne hx]
+  · exact ⟨rfl, fun _ => Iff.rfl⟩
+
 end Lockable
